@@ -639,8 +639,22 @@ func vfConcOracles(c *vfConcCase, h *vfConcHist) (vs []*vfViol, st vfConcStats) 
 	return
 }
 
+// named key types exercise the reflection path of the default KeyToHash
+type vfNamedStr string
+type vfNamedBytes []byte
+type vfNamedU64 uint64
+type vfNamedInt int
+
 func vfConcRunTyped(c *vfConcCase) *vfConcHist {
 	switch c.KeyType {
+	case "named-string":
+		return vfConcExec(c, func(i int) vfNamedStr { return vfNamedStr(fmt.Sprintf("key-%d", i)) }, func(k vfNamedStr) int { var i int; fmt.Sscanf(string(k), "key-%d", &i); return i })
+	case "named-bytes":
+		return vfConcExec(c, func(i int) vfNamedBytes { return vfNamedBytes(fmt.Sprintf("key-%d", i)) }, func(k vfNamedBytes) int { var i int; fmt.Sscanf(string(k), "key-%d", &i); return i })
+	case "named-uint64":
+		return vfConcExec(c, func(i int) vfNamedU64 { return vfNamedU64(i + 1) }, func(k vfNamedU64) int { return int(k) - 1 })
+	case "named-int":
+		return vfConcExec(c, func(i int) vfNamedInt { return vfNamedInt(-(i + 1)) }, func(k vfNamedInt) int { return int(-k) - 1 })
 	case "string":
 		return vfConcExec(c, func(i int) string { return fmt.Sprintf("key-%d", i) }, func(k string) int { var i int; fmt.Sscanf(k, "key-%d", &i); return i })
 	case "bytes":
@@ -688,8 +702,9 @@ func vfGenConcCase(t *rapid.T, p *vfConcProfile, maxG int) *vfConcCase {
 		c.Keys = rapid.IntRange(2, 6).Draw(t, "keys2")
 	}
 	if p.id == "C01" {
-		c.KeyType = rapid.SampledFrom([]string{"uint64", "int", "int32", "uint32", "int64", "uint", "byte", "string", "string", "bytes", "bytes"}).Draw(t, "keytype")
-		if c.KeyType == "string" || c.KeyType == "bytes" {
+		c.KeyType = rapid.SampledFrom([]string{"uint64", "int", "int32", "uint32", "int64", "uint", "byte", "string", "string", "bytes", "bytes",
+			"named-string", "named-bytes", "named-uint64", "named-int"}).Draw(t, "keytype")
+		if c.KeyType == "string" || c.KeyType == "bytes" || c.KeyType == "named-string" || c.KeyType == "named-bytes" {
 			c.HashMode = rapid.SampledFrom([]string{"default", "collide1", "collide2", "collide3", "collide2", "distinct"}).Draw(t, "hashmode")
 		}
 	}
